@@ -72,7 +72,9 @@ def infer_redirection(url, recursive=True):
             elif "youtube.com/redirect?" in url:
                 target = "https://" + potential_target
 
-    if target is None:
+    # NOTE: a genuine target is embedded in the url, hence strictly shorter.
+    # Following anything else could go on forever.
+    if target is None or len(target) >= len(url):
         return url
 
     if recursive:
